@@ -39,8 +39,24 @@ def check_class(ctx, ir, cls, sigs):
             if sg and a.rhs.op in ('sig', '|') and all((not s_.startswith('self.')) and '.' in s_ for s_ in sg):
                 continue
             n += 1
-            ok = strobe_in(q.atoms(a)) or (a.state is not None and a.state[1] in safe) or \
-                (a.rhs.op != 'const' and all(strobe_in(c) for c in q.dnf(a.rhs)))
+            def site_ok(x, depth=0):
+                if strobe_in(q.atoms(x)) or (x.state is not None and x.state[1] in safe):
+                    return True
+                return x.rhs.op != 'const' and all(term_ok(c, depth) for c in q.dnf(x.rhs))
+
+            def term_ok(c, depth):
+                if strobe_in(c):
+                    return True
+                # a forwarded request of another module (checked itself), or a local intermediate flag: judged by ITS raise sites
+                if len(c) == 1:
+                    (nm, pol), = c
+                    if pol and '.' in nm and not nm.startswith('self.'):
+                        return True
+                    if pol and nm in ir.signals and '.' not in nm and depth < 3:
+                        rs = [y for y in ir.drivers(nm, exact=True) if y.rhs is not None and not q.is_zero(y.rhs)]
+                        return bool(rs) and all(y.domain == 'comb' and site_ok(y, depth + 1) for y in rs)
+                return False
+            ok = site_ok(a)
             ctx.ob('C20.solicited', '%s.%s#%d' % (cls, sig.replace('self.interface.', '').replace('self.', ''), i), ok, a.loc,
                    'a transmission may only be started by a token-derived, gap-delayed strobe: %s' % q.fmt(a)[:300])
     return n
